@@ -241,6 +241,16 @@ class Run:
                         w = self.eng.cmd(f"!wait_parked {op[1]} 2000")
                         if not w.get("parked"):
                             self.notes.append(f"park point {op[1]} not reached")
+                    elif op[0] == "WAITHITS":
+                        import time as _t
+                        ok = False
+                        for _ in range(400):
+                            if int(self.eng.cmd(f"!hits {op[1]}").get("hits", 0)) >= int(op[2]):
+                                ok = True
+                                break
+                            _t.sleep(0.005)
+                        if not ok:
+                            self.notes.append(f"step point {op[1]} was not hit {op[2]} times")
                     elif op[0] == "BGQ":
                         self.eng.cmd(f"!bg QUERY {tname(op[1])} RETURN [k]")
                     elif op[0] == "JOIN":
